@@ -14,7 +14,9 @@ EVENTS = ["CER", "CER-other-host", "CER-odd-flags", "CEA", "CEA-other-host", "DW
           "DPR", "DPR-bad-cause", "DPA", "APP-req", "APP-req-misaddressed", "APP-ans", "local-stop", "local-stop+pending-inbound",
           "peer-disconnect", "idle", "CEA-duplicate", "DWA-echo", "DWA-echo-twice",
           # requests addressed by host only / realm only / to another realm (RFC 6733 6.1.4: local consumption)
-          "APP-req-host-only", "APP-req-realm-only", "APP-req-other-realm"]
+          "APP-req-host-only", "APP-req-realm-only", "APP-req-other-realm",
+          # the configured peer's name with stray undecodable octets in it: another identity
+          "CER-near-miss-host", "CEA-near-miss-host"]
 FOR_THIS_NODE = ("APP-req", "APP-req-realm-only")    # host-only (no Destination-Realm at all) is observed, not judged: RFC 6733 wants the realm in every request
 FOR_ANOTHER_NODE = ("APP-req-misaddressed", "APP-req-other-realm")
 # the same valid base messages carrying the optional Origin-State-Id AVP their grammar allows: same cells as the plain ones
@@ -49,10 +51,22 @@ class Ids:
         return self.n, self.n + 0x1000000
 
 
+def near_miss(k):
+    """identities that are NOT the configured peer's although they look like it once undecodable octets are dropped or
+    replaced: the configured name with stray octets in it (k picks one)"""
+    host, realm = N.PEER[0].encode(), N.PEER[1].encode()
+    return [(host[:6] + b"\xff" + host[6:], realm), (host + b"\xfe\xff", realm), (b"\xc3" + host, realm), (host, realm[:3] + b"\xff" + realm[3:]),
+            (host[:-1] + b"\x80" + host[-1:], realm + b"\xff")][k % 5]
+
+
 def event_bytes(ev, ids):
     """-> (bytes to inject or None, (hbh, e2e))"""
     h, e = ids.next()
     L, P = N.LOCAL, N.PEER
+    if ev.endswith("-near-miss-host"):
+        nh, nr = near_miss(h)
+        m = {"CER": N.cer, "CEA": N.cea, "DWR": N.dwr, "DWA": N.dwa}[ev.split("-")[0]](host=nh, realm=nr, hbh=h, e2e=e)
+        return R.encode(m), (h, e)
     m = None
     if ev == "CER":
         m = N.cer(hbh=h, e2e=e)
@@ -124,7 +138,7 @@ def model_step(state, ev, role):
             return r(OPEN)
         if ev == "CEA-duplicate":
             return r(OPEN)                        # it is the valid CEA for the CER that was sent
-        if ev in ("CEA-other-host", "local-stop", "local-stop+pending-inbound", "idle"):
+        if ev in ("CEA-other-host", "CEA-near-miss-host", "local-stop", "local-stop+pending-inbound", "idle"):
             return r(C_WAIT_CEA, hard=False, not_open=True)
         return r(CLOSED)                      # H5 (anything but a CEA) and H4 (peer disconnect)
     if state == OPEN:
